@@ -23,6 +23,8 @@
 #include "util/file.hh"
 #include "util/read_compressed.hh"
 #include "util/tokenize_piece.hh"
+#include "util/stream/chain.hh"
+#include "util/stream/line_input.hh"
 
 #include <csignal>
 #include <cstdio>
@@ -39,6 +41,12 @@
 #include <sys/syscall.h>
 #include <sys/mman.h>
 #include <cerrno>
+
+// The library declares LineInput's constructor but does not define it (no kenlm program uses the class); weak, so that a
+// definition added to the library later wins.
+namespace util { namespace stream {
+__attribute__((weak)) LineInput::LineInput(int fd) : fd_(fd) {}
+}}
 
 namespace {
 int g_fd = -1;
@@ -320,6 +328,60 @@ void case_tk(std::istringstream &in, std::ostream &o) {
   else if (mode == "A") dump_tokens(util::TokenIter<util::AnyCharacter, true>(sp, " \t"), o);
   else o << "BADMODE";
 }
+// LI <src F|R> <block size> <plainhex> <comphex|-> <chunks>: util::stream::LineInput in a Chain (entry size 1, two blocks of the
+// given size) over a regular file (F) or the chunk-dictated pipe (R), plain or compressed bytes; answer: the valid sizes of the
+// blocks delivered downstream, then length and hash of their concatenation
+struct LiCollected { std::string bytes; std::vector<size_t> sizes; };
+class LiCollector {
+  public:
+    explicit LiCollector(LiCollected *to) : to_(to) {}
+    void Run(const util::stream::ChainPosition &position) {
+      for (util::stream::Link link(position); link; ++link) {
+        to_->sizes.push_back(link->ValidSize());
+        to_->bytes.append(static_cast<const char*>(link->Get()), link->ValidSize());
+      }
+    }
+  private:
+    LiCollected *to_;
+};
+void case_li(std::istringstream &in, std::ostream &o) {
+  std::string src, bs, plain, comp, chunks;
+  in >> src >> bs >> plain >> comp >> chunks;
+  size_t block_size = strtoull(bs.c_str(), NULL, 16);
+  std::string data = unhex(comp == "-" ? plain : comp);
+  std::vector<size_t> ch = numlist(chunks);
+  int fd;
+  int p[2] = {-1, -1};
+  g_fd = -1;
+  if (src == "F") {
+    std::string name = write_temp(data);
+    fd = open(name.c_str(), O_RDONLY);
+    unlink(name.c_str());
+  } else {
+    if (pipe(p)) { perror("pipe"); exit(3); }
+    g_data = data; g_pos = 0; g_chunks = ch; g_chunk_i = 0; g_fd = p[0];
+    fd = p[0];
+  }
+  LiCollected got;
+  try {
+    util::stream::ChainConfig config(1, 2, 2 * block_size);
+    util::stream::Chain chain(config);
+    chain >> util::stream::LineInput(fd) >> LiCollector(&got) >> util::stream::kRecycle;
+    chain.Wait();
+  } catch (const std::exception &e) {
+    o << "EXC:" << e.what();
+    g_fd = -1;
+    if (p[1] >= 0) close(p[1]);
+    return;
+  }
+  g_fd = -1;
+  if (p[1] >= 0) close(p[1]);
+  for (size_t i = 0; i < got.sizes.size(); ++i) o << (i ? "," : "") << std::hex << got.sizes[i];
+  if (got.sizes.empty()) o << "-";
+  uint64_t h = 7;
+  for (size_t i = 0; i < got.bytes.size(); ++i) h = (h * 257 + (unsigned char)got.bytes[i] + 1) % 2147483647ULL;
+  o << ' ' << std::hex << got.bytes.size() << ' ' << h;
+}
 } // namespace
 
 int main() {
@@ -333,6 +395,7 @@ int main() {
     if (cmd == "FP") case_fp(in, o);
     else if (cmd == "RC") case_rc(in, o);
     else if (cmd == "TK") case_tk(in, o);
+    else if (cmd == "LI") case_li(in, o);
     else o << "BADCMD";
     std::cout << o.str() << '\n';
     std::cout.flush();
